@@ -11,7 +11,6 @@ import (
 )
 
 type (
-	Pool   = sync.Pool
 	Map    = sync.Map
 	Locker = sync.Locker
 	Cond   = sync.Cond
@@ -20,6 +19,52 @@ type (
 func NewCond(l Locker) *Cond { return sync.NewCond(l) }
 
 func OnceFunc(f func()) func() { return sync.OnceFunc(f) }
+
+// ---------------------------------------------------------------- Pool
+
+// Pool is a deterministic sync.Pool: Get hands out the object Put last, by whichever thread (a legal
+// behaviour of the real pool, and the adversarial one for code which keeps using an object after
+// putting it back); Get and Put are scheduling points.
+type Pool struct {
+	New   func() any
+	items []any
+	sv    vsched.SyncVar
+}
+
+func (p *Pool) Describe() string { return fmt.Sprintf("Pool(%d free)", len(p.items)) }
+
+func (p *Pool) Get() any {
+	if vsched.Active() {
+		vsched.Point("Pool.Get", p, nil)
+	}
+	if n := len(p.items); n > 0 {
+		x := p.items[n-1]
+		p.items = p.items[:n-1]
+		if vsched.Active() {
+			p.sv.Acquire()
+		}
+		return x
+	}
+	if p.New != nil {
+		return p.New()
+	}
+	return nil
+}
+
+func (p *Pool) Put(x any) {
+	if x == nil {
+		return
+	}
+	if vsched.Active() {
+		vsched.Point("Pool.Put", p, nil)
+		p.sv.ReleaseStore()
+	}
+	p.items = append(p.items, x)
+	if vsched.Active() {
+		// code which goes on using x after Put races with the next Get: give the other threads a turn right here
+		vsched.Point("Pool.Put.done", p, nil)
+	}
+}
 
 // ---------------------------------------------------------------- Mutex
 
